@@ -97,6 +97,10 @@ def main(tier, seed):
                     w = rng.choice(["help", "clear", "exit", "helper", "Help", "exits"])
                     l = (w + " " + l) if rng.random() < 0.7 else (l + " " + w)
                 script.append(l)
+            if rng.random() < 0.15:
+                # the session word `exit` ends the session with status 0; what follows it is never read
+                script.append(rng.choice(["exit", "  exit  "]))
+                if rng.random() < 0.5: script.append(render_prog(idiom_print(rng)))
             scripts.append("\n".join(script) + ("\n" if rng.random() < 0.9 else ""))
             metas.append((p, rec, pre_clear))
         # whole runs of the programs entered before `clear`
